@@ -145,6 +145,7 @@ def inline_unknown(jbodies, known):
                 absorbed.append(H)
         if absorbed:
             c["absorbed_parents"] = absorbed
+            _devirtualise(c)
             if c.get("_inl_roots"):
                 split_variants(c, set(c["_inl_roots"]))
     # a helper is absorbed when nothing refers to it any more except other (absorbed) helpers
@@ -186,6 +187,38 @@ def inline_unknown(jbodies, known):
 # the switch is resolved, so that dominance and reachability see the same paths as before the
 # extraction.  Only values that originate in the return place of an inlined helper are tracked.
 # ---------------------------------------------------------------------------------------------
+def _devirtualise(c):
+    """a call through a local that holds a function item (a `fn` argument of an inlined helper that the caller
+    passed as a constant) becomes a direct call"""
+    defs = {}
+    for blk in c["blocks"]:
+        for st in blk["stmts"]:
+            if st.get("k") == "assign" and not st["place"]["p"]:
+                defs.setdefault(st["place"]["l"], []).append(st["rv"])
+        t = blk.get("term")
+        if t and t.get("k") == "call" and not t["dest"]["p"]:
+            defs.setdefault(t["dest"]["l"], []).append(None)
+    for blk in c["blocks"]:
+        t = blk.get("term")
+        if not t or t.get("k") != "call" or t.get("callee") or not _bare(t.get("callee_place")):
+            continue
+        l = t["callee_place"]["l"]
+        for _ in range(6):
+            ds = defs.get(l, [])
+            if len(ds) != 1 or ds[0] is None or ds[0]["k"] not in ("use", "cast"):
+                break
+            op = ds[0]["op"]
+            if op.get("k") == "const" and "fn" in op:
+                t["callee"] = op["fn"]
+                t["callee_raw"] = op["fn"]
+                t["devirtualised"] = True
+                break
+            if op.get("k") in ("move", "copy") and _bare(op["place"]):
+                l = op["place"]["l"]
+                continue
+            break
+
+
 VAR = {"Ok": 0, "Err": 1, "None": 0, "Some": 1, "Continue": 0, "Break": 1}
 
 
